@@ -237,6 +237,46 @@ theorem delay_le_fresh (s : St) (tss : List Int) (hd : 0 < s.delta) (h0 : s.prev
       have := delay_le (getTimeout s t).1 _ rest (by rw [hdel]; exact hd) hinv ha k ts r hk hr
       rw [hdel] at this; exact this
 
+/-- **C19.release_exact**: the functional specification of one call. With slot start `p` and a
+call at `ts ≥ p`, the request is released at exactly `max ts (p + δ)` — the end of the running
+slot when it comes early, at once when it comes after it — and the new slot start stays on the
+grid `p + k·δ`, `k ≥ 1`, with the release inside the new slot. -/
+theorem release_exact (s : St) (p ts : Int) (hd : 0 < s.delta) (hp : s.prev = some p)
+    (hts : p ≤ ts) :
+    release ts (getTimeout s ts).2 = max ts (p + s.delta) ∧
+    ∃ k : Int, 1 ≤ k ∧ (getTimeout s ts).1.prev = some (p + s.delta * k) ∧
+      p + s.delta * k ≤ release ts (getTimeout s ts).2 ∧
+      release ts (getTimeout s ts).2 < p + s.delta * k + s.delta := by
+  simp only [getTimeout, hp]
+  have he : ¬ (ts - p < 0) := by omega
+  simp only [he, ite_false]
+  split
+  · rename_i h
+    simp only [release]
+    have : s.delta - (ts - p) > 0 := by omega
+    simp only [this, ite_true]
+    refine ⟨by omega, 1, by omega, by simp, by simp; omega, by simp; omega⟩
+  · rename_i h
+    simp only [release]
+    have hq : 1 ≤ (ts - p) / s.delta := by
+      apply Int.le_ediv_of_mul_le hd; omega
+    have hm := Int.emod_add_mul_ediv (ts - p) s.delta
+    have hm0 := Int.emod_nonneg (ts - p) (Int.ne_of_gt hd)
+    have hm1 := Int.emod_lt_of_pos (ts - p) hd
+    refine ⟨by omega, (ts - p) / s.delta, hq, rfl, by omega, by omega⟩
+
+/-- **C19.idle_passes**: a call that arrives after the running slot has ended is not delayed. -/
+theorem idle_passes (s : St) (p ts : Int) (hd : 0 < s.delta) (hp : s.prev = some p)
+    (hts : p + s.delta ≤ ts) : release ts (getTimeout s ts).2 = ts := by
+  have := (release_exact s p ts hd hp (by omega)).1
+  omega
+
+/-- **C19.run_length**: every call of a history is released exactly once. -/
+theorem run_length (s : St) (tss : List Int) : (run s tss).length = tss.length := by
+  induction tss generalizing s with
+  | nil => rfl
+  | cons t rest ih => simp only [run, List.length_cons, ih]
+
 /-- **C19.ctor**: non-positive rates and rates above 10^9 (interval truncates to 0) are
 refused; every constructed policer has a positive interval and no history. -/
 theorem ctor_refuses (pos : Bool) (q : Int) (hq : 0 ≤ q) :
